@@ -58,7 +58,10 @@ Pool ==
      Q("query($v: Boolean!) { a @include(if: $v) }", "", "V", "vt"),      \* 29
      Q("{ g(li: [1]) }", "", "W", "-"),                                   \* 30
      Q("{ g(li: true) }", "", "X", "-"),                                  \* 31 invalid literal of the same shape
-     Q("{ g(li: [2, 3]) }", "", "W", "-")                                 \* 32
+     Q("{ g(li: [2, 3]) }", "", "W", "-"),                                \* 32
+     Q("{ f(x: 1) g(fl: 1) }", "", "Y", "-"),                             \* 33 the same literal at an Int and a Float argument
+     Q("{ g(i: 7) gni(ni: 7) }", "", "Z", "-"),                           \* 34 ... at Int and Int!
+     Q("{ f(x: 2) g(fl: 3) }", "", "Y", "-")                              \* 35 same shape as 33
   >>
 
 Schemas == {"s1", "s2"}
